@@ -165,8 +165,10 @@ def shard_witness(which, part, nparts, seed, members):
             if row is not None and row.name.startswith(('LDR', 'STR', 'LDM', 'STM', 'PUSH', 'POP', 'SRS', 'RFE', 'LDC', 'STC', 'PLD', 'SWP')):
                 # every load / store encoding once more under stage-2 translation: a stage-2 fault is reported to Hyp mode with the instruction
                 # syndrome the executing opcode object supplies (a code path nothing else reaches)
+                w2 = tame_registers(spec.table, row, word, rng)
+                code2 = e1.enc_arm(w2) if which == 'arm' else e1.enc_thumb(w2, True) + b'\x00\xbf'
                 for hooked in (False, True):
-                    case = gen.step_case(rng, 'v7-virt', which != 'arm', code, hooked=hooked, mode=rng.choice(('svc', 'usr', 'sys', 'irq')), ns=True, mmu=False, code_base=0x8000,
+                    case = gen.step_case(rng, 'v7-virt', which != 'arm', code2, hooked=hooked, mode=rng.choice(('svc', 'usr', 'sys', 'irq')), ns=True, mmu=False, code_base=0x8000,
                                          it=0)
                     if rng.random() < 0.75 and (case['state']['R.PC'] >> 21) == 0:
                         gen.stage2_map(rng, case)
@@ -174,6 +176,31 @@ def shard_witness(which, part, nparts, seed, members):
                         gen.force_stage2(rng, case['state'])
                     check_case(acc, case, 'witness-stage2/' + which, ('wit2', which, word, hooked, case['state']['cpsr'], case['state']['vtcr']))
     return acc
+
+
+def tame_registers(table, row, word, rng):
+    """the same encoding with SP / PC in its register fields replaced by low registers (most UNPREDICTABLE combinations of load / store encodings are
+    about those): the stage-2 pass wants the access to happen; falls back to the word itself if the row changes"""
+    from vf.ref.enc import decode as table_decode
+    f = dict(row.extract(word))
+    changed = False
+    used = set()
+    for k in 'ntdmu':
+        if k in row.fields and len(row.fields[k]) == 4 and (f[k] in (13, 15) or f[k] in used):
+            f[k] = next(r for r in rng.sample(range(0, 8), 8) if r not in used)
+            changed = True
+        if k in f and isinstance(f[k], int):
+            used.add(f[k])
+    if not changed:
+        return word
+    f.pop('x', None)
+    try:
+        w2 = (row.build(**{k: f[k] for k in row.fields}) & ~row.sbo) | (word & row.sbo) if False else row.build(**{k: f[k] for k in row.fields})
+    except Exception:
+        return word
+    w2 = (w2 & ~(row.sbz | row.sbo)) | (word & (row.sbz | row.sbo))
+    r2, _ = table_decode(table, w2)
+    return w2 if r2 is row else word
 
 
 def shard_stage2_arm(part, nparts, seed, members):
@@ -191,6 +218,7 @@ def shard_stage2_arm(part, nparts, seed, members):
                 continue
             if (word >> 28) < 14:
                 word = (word & 0x0FFFFFFF) | (0xE << 28)
+            word = tame_registers(e1prop.TABLES['arm'], row, word, rng)
             case = gen.step_case(rng, 'v7-virt', False, e1.enc_arm(word), hooked=rng.random() < 0.6, mode=rng.choice(('svc', 'usr', 'sys', 'irq')), ns=True, mmu=False, code_base=0x8000)
             if rng.random() < 0.75 and (case['state']['R.PC'] >> 21) == 0:
                 gen.stage2_map(rng, case)
